@@ -110,7 +110,7 @@ def canonicalize_locals(body, pinned):
     cur = declared_locals(body)
     if not pinned or cur == pinned or len(cur) != len(pinned): return body, []
     ren = [(c, p) for c, p in zip(cur, pinned) if c != p]
-    toks = set(re.findall(r'[A-Za-z_]\w*', body))
+    toks = set(re.findall(r'(?<![\w.>])[A-Za-z_]\w*', body))      # free identifiers (member accesses .x / ->x do not count)
     for c, p in ren:
         if p in toks or c in pinned: return body, []          # the pinned name is still in use / names were permuted: not a pure rename
     for c, p in ren:
@@ -339,7 +339,17 @@ class Lowerer:
         refs = []
         def rp(m):
             name = m.group(2); refs.append(name); self.fire('reference')
-            return '__auto_type %s_p = &(%s);\n#define %s (*%s_p)\n' % (name, m.group(3), name, name)
+            init = m.group(3).strip()
+            # T& x = c ? a : b;  - a conditional is not an lvalue in C: take the address in both branches
+            d = 0; q = -1; col = -1
+            for i, ch in enumerate(init):
+                if ch in '([{': d += 1
+                elif ch in ')]}': d -= 1
+                elif ch == '?' and d == 0 and q < 0: q = i
+                elif ch == ':' and d == 0 and q >= 0 and col < 0 and init[i - 1:i + 2].count(':') == 1: col = i
+            if q > 0 and col > q:
+                return '__auto_type %s_p = (%s) ? &(%s) : &(%s);\n#define %s (*%s_p)\n' % (name, init[:q].strip(), init[q + 1:col].strip(), init[col + 1:].strip(), name, name)
+            return '__auto_type %s_p = &(%s);\n#define %s (*%s_p)\n' % (name, init, name, name)
         s = re.sub(r'\b(const\s+)?(?:auto|[A-Za-z_][\w:]*(?:<[^;=()]*>)?)\s*&\s*(\w+)\s*=\s*([^;]+);', rp, s)
         self._refs = refs
         return s
